@@ -1020,3 +1020,16 @@ package eval
 //@   requires [parser] (not (= $p 0))
 //@   ensures [rule] (= $ret0 (ite (= (precOf (fld $car val)) 100) 100 (- (precOf (fld $car val)) (precOf (fld $top val)))))
 //@   assigns
+
+// ---------------------------------------------------------------------------
+// C20 — the generator's in-line result computation.
+//@ func GenerateRandomExpr.execOp C20
+//@   requires [known-operator] (not (= (mapget (global builtinOperators) $op) 0))
+//@   ensures [and-false] (=> (and (= $op "and") (HAS $param (V_bool false))) (and (= $ret0 (V_bool false)) (= (heap dyn.n) (old (heap dyn.n)))))
+//@   ensures [or-true] (=> (and (not (and (= $op "and") (HAS $param (V_bool false)))) (= $op "or") (HAS $param (V_bool true))) (and (= $ret0 (V_bool true)) (= (heap dyn.n) (old (heap dyn.n)))))
+//@   ensures [dne-poisons] (=> (and (not (and (= $op "and") (HAS $param (V_bool false)))) (not (and (= $op "or") (HAS $param (V_bool true)))) (HAS $param (DNEVAL)))
+//@        (and (= $ret0 (DNEVAL)) (= (heap dyn.n) (old (heap dyn.n)))))
+//@   ensures [otherwise-the-built-in] (=> (and (not (and (= $op "and") (HAS $param (V_bool false)))) (not (and (= $op "or") (HAS $param (V_bool true)))) (not (HAS $param (DNEVAL))))
+//@        (and (= (heap dyn.n) (+ (old (heap dyn.n)) 1)) (= (select (heap dyn.fn) (old (heap dyn.n))) (mapget (global builtinOperators) $op))
+//@             (= $ret0 (dynres_0_Val (mapget (global builtinOperators) $op) (old (heap dyn.n))))))
+//@   assigns dyn.* last.err
